@@ -286,9 +286,12 @@ class CoreDriver:
             if x is None or x.ctl.transport.is_closing():
                 ok = False
             else:
-                if x.data is not None and not x.data.transport.is_closing() and len(st) > 2 and st[2] == "all":
-                    x.data.close()
-                x.ctl.close()
+                if len(st) > 2 and st[2] == "reset":  # the control connection is reset (RST): the server's writes to it fail
+                    x.ctl.abort()
+                else:
+                    if x.data is not None and not x.data.transport.is_closing() and len(st) > 2 and st[2] == "all":
+                        x.data.close()
+                    x.ctl.close()
         elif op == "hold":  # the client stops reading its data connection (flow control engages)
             s = st[1]
             x = self.sess.get(s)
